@@ -47,6 +47,8 @@ def run(ctx):
     r4 = ctx.rule("C12.R4", "ORDINS: channels/samples/modifiers summaries are sorted(set(...)) before any read other than append; builder.append is driven by config.channels x config.samples x config.modifiers; the spec lists are only used for name-keyed, order-independent registration", "ORDINS", floor=6)
     r5 = ctx.rule("C12.R5", "ORDER: Workspace.data reduces observations over model.config.channels into a fresh accumulator and appends config.auxdata iff requested; Workspace.build slices with channel_slices[k] for k in config.channels", "ORDER", floor=4)
     r6 = ctx.rule("C12.R6", "TABLE: Workspace.build writes every user-configurable key that reduce_paramsets_requirements reads (inits, bounds, fixed, auxdata, sigmas, factors)", "TABLE", floor=3)
+    r7 = ctx.rule("C12.R7", "OVERRIDE: interpreting reduce_paramsets_requirements on a two-component constrained set, a value given by the user for inits / bounds / fixed / auxdata / sigmas / factors is the merged value VERBATIM (also when it is falsy: fixed = False over a default that fixes a component) and every key the user does not give keeps the modifier's default", "OVERRIDE", floor=8)
+    _overrides(ctx, r7, repo)
 
     # ------------------------------------------------------------ R1
     sites = [(PDF, "_ModelConfig._create_and_register_paramsets"), (MIX, "_ChannelSummaryMixin.__init__"), (TC, "_tensorviewer_from_sizes")]
@@ -347,3 +349,46 @@ def _no_mutation(ctx, rid, m):
         ctx.violated(rid, m, bad[0], f"`{A.short(bad[0], 70)}` writes into data owned by the workspace / model passed in", expected="work on fresh copies", node=bad[0])
     else:
         ctx.holds(rid, site, "no write into self/model-owned data")
+
+
+def _overrides(ctx, rid, repo):
+    rel = "src/pyhf/parameters/utils.py"
+    red = repo.func(rel, "reduce_paramsets_requirements")
+    ctx.touch(red)
+    at = Poly.atom
+
+    def default_req():
+        return {"paramset_type": "constrained_by_poisson", "n_parameters": Poly.const(2), "is_scalar": False,
+                "inits": (at("DI0"), at("DI1")), "bounds": ((at("DL0"), at("DH0")), (at("DL1"), at("DH1"))),
+                "auxdata": (at("DA0"), at("DA1")), "factors": (at("DF0"), at("DF1")), "fixed": (False, True)}
+
+    def show(v):
+        if isinstance(v, (list, tuple)):
+            return [show(x) for x in v]
+        if isinstance(v, (bool, str)) or v is None:
+            return v
+        return str(to_poly(v))
+
+    cases = [
+        ("inits", [at("UI0"), at("UI1")]), ("bounds", [[at("UL0"), at("UH0")], [at("UL1"), at("UH1")]]),
+        ("auxdata", [at("UA0"), at("UA1")]), ("factors", [at("UF0"), at("UF1")]),
+        ("fixed", True), ("fixed", False), ("inits", [Poly(), Poly()]), (None, None),
+    ]
+    for key, uval in cases:
+        user = {} if key is None else {"q": {key: uval}}
+        lab = "no override" if key is None else f"{key} = {show(uval)}"
+        site = f"{rel}::reduce_paramsets_requirements [{lab}]"
+        try:
+            out = Interp({"paramsets_requirements": {"q": [default_req(), default_req()]}, "paramsets_user_configs": user, "exceptions": Obj("exc")}, {}, {}).run(A.strip_docstring(red.node.body))
+            got = out["q"]
+            want = {k: (list(v) if isinstance(v, tuple) else v) for k, v in default_req().items()}
+            if key is not None:
+                want[key] = uval
+            bad = [k for k in ("inits", "bounds", "auxdata", "factors", "fixed", "n_parameters", "paramset_type") if show(got.get(k)) != show(want[k])]
+            if not bad and got.get("name") == "q":
+                ctx.holds(rid, site, "user value verbatim, other keys at their defaults")
+            else:
+                k0 = bad[0] if bad else "name"
+                ctx.violated(rid, red, f"merged settings [{lab}]", "a per-parameter setting given in the measurement is not the merged value verbatim (a falsy value such as fixed = False must win over the default too), or a key that was not overridden lost its default", expected=f"{k0} = {show(want.get(k0))}", found=f"{k0} = {show(got.get(k0))}")
+        except (Undecided, KeyError, TypeError, ValueError, AttributeError) as e:
+            ctx.unrecognised(rid, red, f"reduce_paramsets_requirements [{lab}]", f"not interpretable: {type(e).__name__}: {e}")
